@@ -792,23 +792,33 @@ def run(ctx):
         process(ctx, exe, [(o, ops, True)], "replay", jobs=1)
         return
 
+    def stream(gen, label, batch=40000):
+        buf, total = [], 0
+        for it in gen:
+            buf.append(it)
+            if len(buf) >= batch:
+                process(ctx, exe, buf, label)
+                total += len(buf)
+                buf = []
+        if buf:
+            process(ctx, exe, buf, label)
+            total += len(buf)
+        ctx.log("%s: %d histories" % (label, total))
+
     prefix = [("A", 0, None), ("A", 1, None)]
-    items = []
-    nvec = ctx.n(4, len(OPT_VECTORS))
-    for o in OPT_VECTORS[:nvec]:
-        for ops in exhaustive(prefix, 2, 2, True):
-            items.append((o, ops, False))
-    ctx.log("exhaustive depth 2: %d histories" % len(items))
-    process(ctx, exe, items, "exh2")
-    items = []
-    for o in OPT_VECTORS[:ctx.n(2, 6)]:
-        for ops in exhaustive(prefix, 3, 1, False):
-            items.append((o, ops, False))
-    ctx.log("exhaustive depth 3 (single-child lists): %d histories" % len(items))
-    process(ctx, exe, items, "exh3")
-    items = []
-    for _ in range(ctx.n(1500, 40000)):
-        o = random_opts(ctx.rng)
-        items.append((o, random_history(ctx.rng, ctx.rng.choice([5, 8, 12, 20, 30, 40])), True))
-    ctx.log("random: %d histories" % len(items))
-    process(ctx, exe, items, "rand")
+    thorough = ctx.tier == "thorough"
+    # quick: the default vector + one other (rotating with the seed); thorough: all of them
+    vecs = OPT_VECTORS if thorough else [OPT_VECTORS[0], OPT_VECTORS[1 + ctx.seed % (len(OPT_VECTORS) - 1)]]
+    stream(((o, ops, False) for o in vecs for ops in exhaustive(prefix, 2, 2, True)), "exh2")
+    vecs3 = OPT_VECTORS[:6] if thorough else [OPT_VECTORS[(2 + ctx.seed) % len(OPT_VECTORS)]]
+    stream(((o, ops, False) for o in vecs3 for ops in exhaustive(prefix, 3, 1, False)), "exh3")
+    if thorough:
+        # one atom, three further calls with child lists of length <= 2, default options and no-compaction
+        for o in OPT_VECTORS[:2]:
+            stream(((o, ops, False) for ops in exhaustive([("A", 0, None)], 3, 2, False)), "exh3w")
+
+    def rand():
+        for _ in range(ctx.n(2500, 60000)):
+            o = random_opts(ctx.rng)
+            yield (o, random_history(ctx.rng, ctx.rng.choice([5, 8, 12, 20, 30, 40])), True)
+    stream(rand(), "rand")
